@@ -440,11 +440,26 @@ fn shape_cfg(prop: &str, c: &mut LevelCfg, rng: &mut Rng) {
     }
 }
 
+/// Sanitizer-sized workloads (Miri): tiny plans, small pools.
+pub static TINY: std::sync::atomic::AtomicBool = std::sync::atomic::AtomicBool::new(false);
+
+pub fn tiny() -> bool {
+    TINY.load(SeqCst)
+}
+
 pub fn gen_for(prop: &str, rng: &mut Rng) -> (Plan, Profile) {
     let profs = profiles_for(prop);
-    let p = *rng.pick(profs);
+    let mut p = *rng.pick(profs);
+    if tiny() && p != Profile::Batchy {
+        p = Profile::Tiny;
+    }
     let mut c = cfg_for(p, rng);
     shape_cfg(prop, &mut c, rng);
+    if tiny() {
+        c.n = (2, 5);
+        c.max_batches = 2;
+        c.depth_left = c.depth_left.min(2);
+    }
     (gen_with(rng, &c), p)
 }
 
@@ -535,7 +550,7 @@ fn total_conflict_pairs(plan: &Plan) -> usize {
 /// One generated case of a scheduling-family property.
 pub fn case(prop: &str, up: &'static str, rng: &mut Rng, pools: &mut Pools, rep: &mut Report, case_no: u64, execute: bool) {
     let (plan, profile) = gen_for(prop, rng);
-    let pool_size = *rng.pick(&POOL_SIZES);
+    let pool_size = if tiny() { rng.range(1, 3) } else { *rng.pick(&POOL_SIZES) };
     let pool = pools.get(pool_size);
     rep.evaluations += 1;
     rep.metric("plans", 1);
@@ -587,7 +602,7 @@ pub fn case(prop: &str, up: &'static str, rng: &mut Rng, pools: &mut Pools, rep:
     if execute && small {
         mode = pick_mode(rng);
         let dp = pick_driver(prop, rng, &inst, mode, pool_ok);
-        let ndisp = rng.range(2, 3);
+        let ndisp = if tiny() { 2 } else { rng.range(2, 3) };
         match mode {
             RunMode::Sync(m) => exec_sync(&mut inst, m, &dp, ndisp, pool_ok, &mut sum),
             RunMode::Async => {
@@ -686,6 +701,9 @@ pub fn case(prop: &str, up: &'static str, rng: &mut Rng, pools: &mut Pools, rep:
 pub fn run(args: &Args, prop: &str, up: &'static str, quick: u64, thorough: u64, execute_every: u64) -> i32 {
     let mut rep = Report::new(args);
     let mut pools = Pools::new();
+    if args.has("--tiny") {
+        TINY.store(true, SeqCst);
+    }
     let n = args.count(quick, thorough);
     let range: Vec<u64> = match args.case {
         Some(c) => vec![c],
@@ -696,7 +714,7 @@ pub fn run(args: &Args, prop: &str, up: &'static str, quick: u64, thorough: u64,
             break;
         }
         let mut rng = Rng::new(args.case_seed(c));
-        let execute = execute_every > 0 && c % execute_every == 0;
+        let execute = execute_every > 0 && (c % execute_every == 0 || tiny());
         case(prop, up, &mut rng, &mut pools, &mut rep, c, execute);
     }
     rep.finish();
